@@ -29,6 +29,7 @@ type Prog struct {
 	normPost     bool
 	ivFrames     []*ivFrame // interval analysis: open loops (break/continue environments)
 	ivDepth      int
+	ivDivK       map[string]divKInfo
 	ivCurSite    ast.Node
 	ivInLin      bool
 	ivCurFn      *ast.FuncDecl // interval analysis: the function being walked (for symbolic cancellation)
